@@ -23,6 +23,10 @@ CHECKS['C09'] = dict(engine='histmc', category='model_checking', section='3/C09'
    technique='explicit-state breadth-first search over index operation histories on the real KVIndex, every query compared with a brute-force scan of the model documents after every step',
    text='Every history over {AddField, RemoveField (x, y.z), AddDoc (2 ids x string/negative/zero/fraction/large values, missing fields), RemoveDoc} up to depth 5 (quick) / 6 (thorough) on a fresh KVIndex over memkv; after each step term matches, term sets, term counts, string term counts, numeric min/max, numeric range counts on a sign-crossing grid, ascending numeric listing and field listing are compared with a scan of the live documents.',
    note='Range bounds are probed away from term values (boundary convention undocumented); min/max only when a numeric value exists; queries on unregistered fields not observed. Known deviations (no re-index on AddField, stale entries on replacement) are followed with masks so deeper states stay covered.')
+CHECKS['C08'] = dict(engine='progenum', category='exploration', section='3/C08',
+   technique='exhaustive finite product: 12 operators x 14 element values x all argument shapes, plus every and/or/not expression up to a nesting bound, on the real evaluator and the real pipeline against a reference evaluator',
+   text='The full grid of condition operators x element values (missing, null, booleans, zero, negative, fraction, 1e308, numeric text, text, empty string, lists, map) x arguments of every JSON kind (all ordered/unordered/equal bound pairs, wrong-length lists, non-numeric bounds) is evaluated directly by logic.MatchesHasExpression and through V().has() on a stored graph, against a reference evaluator written from operations.md; all and/or/not expressions of nesting <=2 (3 thorough) over 4 atoms are checked by truth table, and De Morgan, double negation and operand order are checked as identities on the implementation.',
+   note='Reference evaluator refsem/has.go is the trusted reading of the documentation; without() with a non-list argument is treated as undefined (crash freedom only).')
 NA_REASON = 'check not built yet in this session (planned in DESIGN.md section 3); nothing is claimed for it'
 
 m = {
